@@ -6,6 +6,11 @@
 #   c02.apply        FileMapCache.ApplyContentChanges on raw bytes (malformed input; model only)
 #   c02.history      conformant notification histories through the real handlers of a real LspServer
 #   c02.history_bad  the same handlers on histories a conforming client never sends (model only where non-conformant)
+#   c02.uri / c02.uri3  pathpre.VscodeURIToString (URI -> cache key) with preFixStr "file://" / "file:///" against the
+#                    model's decode (Model/TextSyncUri.v uri_key) and the RFC 3986 reading
+#   c02.rootprefix   pathpre.InitialRootURIAndPath (which prefix is removed), one fresh process per case
+# The histories name their documents by URIs (first token U:<names>): names that differ only in '+' / %20 / %2B,
+# percent-encoded UTF-8, upper/lower-case hex, malformed escapes, backslashes; didSave without text is in the alphabet.
 # The generators below contain a Python copy of the LSP position rules ONLY to produce conformant edits; whether a
 # case is conformant, what the client text is and which class it falls in is decided by the code extracted from Coq.
 import vlib
@@ -226,13 +231,183 @@ def gen_apply(rng, tier):
     return out
 
 
+
+# ------------------------------------------------------------------ URIs
+def pdecode(name, plus_space=False):
+    """percent-decoding of a URI name as net/url does it (None = malformed); bytes in, bytes out"""
+    out, i = bytearray(), 0
+    while i < len(name):
+        c = name[i]
+        if c == 0x25:
+            h = name[i + 1:i + 3]
+            if len(h) < 2 or not all(chr(x) in "0123456789abcdefABCDEF" for x in h):
+                return None
+            out.append(int(h.decode(), 16)); i += 3
+        else:
+            out.append(0x20 if (c == 0x2b and plus_space) else c); i += 1
+    return bytes(out)
+
+
+def name_is_lua(name):
+    d = pdecode(name)
+    return d is not None and d.endswith(b".lua")
+
+
+FAMILIES = [  # names whose keys collide under one or the other reading
+    ["a+b.lua", "a%20b.lua", "a%2Bb.lua", "a%2bb.lua", "a b.lua"],
+    ["p+q+r.lua", "p%20q%20r.lua", "p+q%20r.lua", "p%20q+r.lua", "p%2Bq%20r.lua"],
+    ["+.lua", "%20.lua", "++.lua", "+%20.lua", "%20+.lua", "%2B.lua"],
+    ["%E4%B8%AD.lua", "%e4%b8%ad.lua", "中.lua", "%E4%B8%AD+.lua", "%E4%B8%AD%20.lua"],
+    ["x%25y.lua", "x%2525y.lua", "x%25%32%35y.lua", "x%2520y.lua", "x%20y.lua", "x+y.lua"],
+    ["sub/m.lua", "sub%2Fm.lua", "sub%5Cm.lua", "sub\\m.lua", "sub/m+.lua", "sub/m%20.lua"],
+    ["bad%G1.lua", "bad%.lua", "t%", "t%4", "%zz.lua", "ok%41.lua", "okA.lua"],
+    ["k+.txt", "k%20.txt", "n.txt", "UP.LUA", "v.lua%20", "v.lua+"],
+    ["%F0%9F%98%80+1.lua", "%F0%9F%98%80%201.lua", "é+.lua", "é%20.lua"],
+]
+PLAIN = ["d0.lua", "d1.lua", "d2.lua", "m-1_x~.lua", "dir/deep/f.lua", "d3.txt", "q.lua", "w+w.lua"]
+
+
+def gen_table(rng):
+    """the URI names of a history; None = the four default documents (old case format)"""
+    if rng.random() < 0.3:
+        return None
+    names = []
+    k = rng.random()
+    if k < 0.75:
+        fam = rng.choice(FAMILIES)
+        names += rng.sample(fam, rng.choice([1, 2, 2, 2, 3]))
+        if rng.random() < 0.3:
+            names += rng.sample(rng.choice(FAMILIES), 1)
+    names += rng.sample(PLAIN, rng.choice([0, 1, 1, 2]))
+    names = list(dict.fromkeys(names))[:6]
+    if not any(name_is_lua(n.encode("utf8")) for n in names):
+        names = names[:5] + ["d0.lua"]          # something a conforming client can open
+    rng.shuffle(names)
+    return names
+
+
+def table_tok(names):
+    return "U:" + ",".join(hexs(n.encode("utf8")) for n in names)
+
+
+def case_names(case):
+    t = case.split(" ")[0]
+    if not t.startswith("U:"):
+        return None
+    return [bytes.fromhex(h) if h != "-" else b"" for h in t[2:].split(",")]
+
+
+def plus_pair(case):
+    """two names of the table that QueryUnescape identifies and PathUnescape keeps apart"""
+    ns = case_names(case)
+    if not ns:
+        return False
+    for i, a in enumerate(ns):
+        for b in ns[i + 1:]:
+            da, db = pdecode(a), pdecode(b)
+            if da is not None and db is not None and da != db and pdecode(a, True) == pdecode(b, True):
+                return True
+    return False
+
+
+URI_PREFIXES = [(50, "file://"), (25, "file:///"), (4, ""), (3, "FILE://"), (3, "file:/"), (4, "xfile://"),
+                (4, "file://file://"), (3, "file:///file:///"), (4, "file:////")]
+URI_ATOMS = ["a", "b", "Z", "0", "9", "/", "/", ".", ".lua", "-", "_", "~", "+", "+", "%20", "%2B", "%2b", "%25",
+             "%5C", "%5c", "\\", "%2F", "%E4%B8%AD", "%e4%b8%ad", "中", "é", "%F0%9F%98%80", "%G1", "%1G", "%", "%4", "%%",
+             "%zz", " ", ":", "%3A", "c%3A/", "?", "#", "%00", "%FF", "%80", "file://", "file:///", "dir", "%41", "%7E", "!", "*", "'",
+             "(", ")", ";", "=", "@", "&", "$", ","]
+URI_SMALL = ["a", "+", "%20", "%2B", "%25", "%", "%G1", "%4", "/", "\\"]
+URI_FIXED = ["file:///dir/a+b.lua", "file:///dir/a%20b.lua", "file:///dir/a%2Bb.lua", "file:///c%3A/proj/x.lua", "file:///c:/proj/x.lua",
+             "file:///dir/x%", "file:///dir/x%4", "file:///dir/x%41", "file:///dir/%G1", "file://", "file:///", "", "file:/", "%",
+             "file:///d%5Cx.lua", "file:///d\\x.lua", "file:///%E4%B8%AD%E6%96%87.lua", "file:///a%2525", "file:///a%25", "file:///+", "+",
+             "file:///a+b+c%20d+.lua", "untitled:Untitled-1", "file://host/share/x.lua"]
+
+
+def uri_case(u):
+    return hexs(u.encode("utf8"))
+
+
+def gen_uri(rng, tier):
+    n = {"quick": 20000, "thorough": 300000, "search": 5000}[tier]
+    out = [uri_case(u) for u in URI_FIXED]
+    for pre in ("file://", "file:///"):
+        layer = [""]
+        for _ in range(3):
+            layer = [d + a for d in layer for a in URI_SMALL]
+            out += [uri_case(pre + "/" + d) for d in layer]
+    for _ in range(n):
+        pre = wchoice(rng, URI_PREFIXES)
+        k = rng.choice([0, 1, 2, 3, 4, 6, 8, 12])
+        body = "".join(rng.choice(URI_ATOMS) for _ in range(k))
+        if rng.random() < 0.1:
+            body += rng.choice(["%", "%4", "%G", "+", "%2"])          # the escape cut off at the end
+        out.append(uri_case(pre + ("/" if rng.random() < 0.7 else "") + body))
+    return out
+
+
+def shrink_uri(case):
+    b = bytes.fromhex(case) if case != "-" else b""
+    for i in range(len(b)):
+        yield hexs(b[:i] + b[i + 1:])
+
+
+# ------------------------------------------------------------------ c02.rootprefix (InitialRootURIAndPath)
+UNRESERVED = set(b"abcdefghijklmnopqrstuvwxyzABCDEFGHIJKLMNOPQRSTUVWXYZ0123456789-._~/")
+PCHAR = UNRESERVED | set(b"!$&'()*+,;=:@")
+
+
+def pencode(path, raw, lower=False):
+    out = []
+    for c in path:
+        out.append(chr(c) if c in raw else ("%%%02x" if lower else "%%%02X") % c)
+    return "".join(out).encode("latin1")
+
+
+ROOT_ATOMS = ["/home", "/w", "/a+b", "/a b", "/100%", "/中", "/x%20y", "/p+q+", "/-_.~", "/é", "/c:", "/+", "/%", "/%41", "/d\\e", "/UP", "/0"]
+
+
+def gen_rootprefix(rng, tier):
+    n = {"quick": 1200, "thorough": 20000, "search": 300}[tier]
+    fixed = [("file:///home/a%2Bb", "/home/a+b"), ("file:///home/a+b", "/home/a+b"), ("file:///w/100%25", "/w/100%"), ("file:///w", "/w"),
+             ("file:///c%3A/proj", "c:/proj"), ("file:///c%3A/proj", "c:\\proj"), ("file://", ""), ("", ""), ("file:///", "/"), ("file:///w", "/v"),
+             ("file:///w/%G1", "/w/%G1"), ("file:///a%20b", "/a b"), ("file:///a%20b", "/a%20b"), ("file:///a+b", "/a b")]
+    out = ["%s %s" % (hexs(u.encode("utf8")), hexs(p.encode("utf8"))) for u, p in fixed]
+    for _ in range(n):
+        path = "".join(rng.choice(ROOT_ATOMS) for _ in range(rng.choice([1, 1, 2, 2, 3]))).encode("utf8")
+        k = rng.random()
+        if k < 0.4:
+            enc = pencode(path, UNRESERVED)                 # vscode-uri
+        elif k < 0.7:
+            enc = pencode(path, PCHAR)                      # RFC 3986 pchar
+        elif k < 0.8:
+            enc = pencode(path, UNRESERVED, lower=True)
+        elif k < 0.9:
+            enc = path                                      # not encoded at all
+        else:
+            enc = pencode(path, PCHAR) + rng.choice([b"%", b"%4", b"x", b"/", b"+"])
+        pre = wchoice(rng, [(80, b"file://"), (10, b"file:///"), (4, b"file:/"), (3, b""), (3, b"FILE://")])
+        p2 = path
+        m = rng.random()
+        if m < 0.08:
+            p2 = path + b"/x"
+        elif m < 0.12:
+            p2 = path.replace(b"/", b"\\")
+        elif m < 0.16 and len(path) > 1:
+            p2 = path[:-1]
+        out.append("%s %s" % (hexs(pre + enc), hexs(p2)))
+    return out
+
 # ------------------------------------------------------------------ c02.history
 class Client:
     """A conforming client: keeps its own text, produces edits from its own (LSP) view of positions."""
-    def __init__(self, rng, pools, maxnotes):
+    def __init__(self, rng, pools, maxnotes, names=None):
         self.rng, self.pools, self.maxnotes = rng, pools, maxnotes
         self.docs = {}          # doc -> text
         self.notes = []
+        self.names = names      # URI names of the documents (None: d0.lua d1.lua d2.lua d3.txt)
+        ns = names if names is not None else ["d0.lua", "d1.lua", "d2.lua", "d3.txt"]
+        self.ndocs = len(ns)
+        self.lua = [i for i, n in enumerate(ns) if name_is_lua(n.encode("utf8"))]
 
     def text(self, big=False):
         r = self.rng
@@ -270,10 +445,10 @@ class Client:
     def step(self):
         r = self.rng
         opened = sorted(self.docs)
-        closed = [d for d in (0, 1, 2) if d not in self.docs]
+        closed = [d for d in self.lua if d not in self.docs]
         acts = []
         if opened:
-            acts += [(60, "change"), (10, "save"), (8, "close")]
+            acts += [(60, "change"), (8, "save"), (4, "savenil"), (8, "close")]
         if closed:
             acts += [(12 if opened else 100, "open")]
         a = wchoice(r, acts)
@@ -289,6 +464,9 @@ class Client:
         elif a == "save":
             d = r.choice(opened)
             self.notes.append("S%d:%s" % (d, cps(self.docs[d])))
+        elif a == "savenil":
+            d = r.choice(opened)
+            self.notes.append("S%d:nil" % d)                 # `text` is optional in DidSaveTextDocumentParams
         else:
             d = r.choice(opened)
             del self.docs[d]
@@ -298,15 +476,21 @@ class Client:
         n = self.rng.randrange(2, self.maxnotes + 1)
         while len(self.notes) < n:
             self.step()
-        return " ".join(self.notes)
+        return self.case()
+
+    def case(self):
+        return " ".join(([table_tok(self.names)] if self.names is not None else []) + self.notes)
 
 
 def gen_history(rng, tier):
     n = {"quick": 15000, "thorough": 200000, "search": 3000}[tier]
-    out = ["O0:-", "O0:- C0:0.0.0.0.0:61", "O0:61.d.a.4e2d C0:1.1.1.1.0:78 C0:0.1.1.0.2:- S0:61.4e2d.78 X0"]
+    out = ["O0:-", "O0:- C0:0.0.0.0.0:61", "O0:61.d.a.4e2d C0:1.1.1.1.0:78 C0:0.1.1.0.2:- S0:61.4e2d.78 X0",
+           "O0:78 S0:nil C0:0.1.0.1.0:79 S0:nil X0",
+           table_tok(["a+b.lua", "a%20b.lua"]) + " O0:78 O1:79 C0:0.1.0.1.0:7a S1:nil X0 C1:0.0.0.1.1:-",
+           table_tok(["a%2Bb.lua", "a%20b.lua", "%E4%B8%AD.lua"]) + " O0:78 O1:79 O2:- C2:0.0.0.0.0:4e2d X1 S0:78"]
     for _ in range(n):
         _, pools = pick_mode(rng)
-        out.append(Client(rng, pools, 12).run())
+        out.append(Client(rng, pools, 12, gen_table(rng)).run())
     return out
 
 
@@ -315,17 +499,20 @@ def gen_history_bad(rng, tier):
     positions of the document, Range == nil with RangeLength != 0, didSave without text, a non-Lua document"""
     n = {"quick": 5000, "thorough": 40000, "search": 1500}[tier]
     out = ["C0:0.0.0.0.0:61", "X0", "S0:61", "S0:nil", "O0:61 S0:nil O0:62", "O0:61 C0:F.3:62 O0:63", "O3:61 S3:62 C3:0.0.0.0.0:63 X3",
-           "O0:61 O0:62 X0 X0 C0:F.0:63"]
+           "O0:61 O0:62 X0 X0 C0:F.0:63",
+           table_tok(["bad%G1.lua", "t%", "ok.lua"]) + " O0:61 S0:62 S1:63 O2:64 X1 S0:nil",
+           table_tok(["a+b.lua", "a%2Bb.lua", "a%2bb.lua"]) + " O0:61 O1:62 C2:0.0.0.0.0:63 X0 S1:nil",
+           table_tok(["sub%5Cm.lua", "sub/m.lua", "sub\\m.lua"]) + " O0:61 O1:62 C2:0.0.0.0.0:63 X0"]
     for _ in range(n):
         _, pools = pick_mode(rng)
-        c = Client(rng, pools, 10)
+        c = Client(rng, pools, 10, gen_table(rng))
         k = rng.randrange(2, 11)
         while len(c.notes) < k:
             m = rng.random()
             if m < 0.55:
                 c.step()
                 continue
-            d = rng.choice([0, 0, 1, 2, 3])
+            d = rng.randrange(c.ndocs) if c.names is not None else rng.choice([0, 0, 1, 2, 3])
             if m < 0.70:                     # a range that is not a range of the client's text
                 s = c.docs.get(d, "")
                 pl = positions(s)
@@ -348,23 +535,33 @@ def gen_history_bad(rng, tier):
             else:
                 t = c.text(True)
                 c.notes.append("O%d:%s" % (d, cps(t)))                   # possibly already open, possibly the .txt
-                if d != 3:
+                if d in c.lua:
                     c.docs[d] = t
-        out.append(" ".join(c.notes))
+        out.append(c.case())
     return out
 
 
 def shrink_history(case):
     toks = case.split(" ")
+    head = []
+    if toks and toks[0].startswith("U:"):
+        head, toks = toks[:1], toks[1:]
     for k in range(1, len(toks)):
-        yield " ".join(toks[:k])
+        yield " ".join(head + toks[:k])
     for i in range(len(toks)):
-        yield " ".join(toks[:i] + toks[i + 1:])
+        yield " ".join(head + toks[:i] + toks[i + 1:])
     for i, t in enumerate(toks):
         if t[0] == "C" and ";" in t:
             chs = t[3:].split(";")
             for j in range(len(chs)):
-                yield " ".join(toks[:i] + [t[:3] + ";".join(chs[:j] + chs[j + 1:])] + toks[i + 1:])
+                yield " ".join(head + toks[:i] + [t[:3] + ";".join(chs[:j] + chs[j + 1:])] + toks[i + 1:])
+    if head:                                 # drop the last name of the table if no notification uses it
+        names = head[0][2:].split(",")
+        if len(names) > 1 and not any(t[1] == str(len(names) - 1) for t in toks):
+            yield " ".join(["U:" + ",".join(names[:-1])] + toks)
+    for i, t in enumerate(toks):             # shorter texts
+        if t[0] in "OS" and "." in t[3:]:
+            yield " ".join(head + toks[:i] + [t[:3] + t[3:].split(".")[0]] + toks[i + 1:])
 
 
 def hist_nontrivial(c):
@@ -377,19 +574,30 @@ LEGS = [
     Leg("c02.apply", gen_apply, nontrivial=lambda c: ":" in c),
     Leg("c02.history", gen_history, shrink=shrink_history, nontrivial=hist_nontrivial, per_case_s=0.3),
     Leg("c02.history_bad", gen_history_bad, shrink=shrink_history, nontrivial=lambda c: True, per_case_s=0.3),
+    Leg("c02.uri", gen_uri, shrink=shrink_uri, nontrivial=lambda c: "25" in c or "2b" in c),
+    Leg("c02.uri3", gen_uri, shrink=shrink_uri, nontrivial=lambda c: "25" in c or "2b" in c),
+    Leg("c02.rootprefix", gen_rootprefix, nontrivial=lambda c: "25" in c or "2b" in c, per_case_s=0.5),
 ]
 
 TRUSTED = vlib.TRUSTED_COMMON + [
     "modelled, tied by correspondence: lspcommon.offsetForStartAndEnd, FileMapCache.ApplyContentChanges/SetFileContent/"
-    "DelFileContent/GetFileContent, and the cache-relevant control flow of TextDocumentDidOpen/DidChange/DidSave/DidClose",
+    "DelFileContent/GetFileContent, pathpre.VscodeURIToString (with net/url PathUnescape) and the cache-relevant control "
+    "flow of TextDocumentDidOpen/DidChange/DidSave/DidClose",
+    "the prefix preFixStr is a parameter of the handler model; pathpre.InitialRootURIAndPath, which sets it, is modelled and "
+    "compared separately (init_prefix, leg c02.rootprefix); the history legs run with file:// (root URI file://<rootPath>, "
+    "the root a temporary directory without characters that need escaping), the decode alone also with the initial file:///",
     "JSON decoding of the notification parameters (encoding/json: strings arrive as UTF-8, uint32 positions) is not modelled; "
     "the handlers are called with decoded parameters",
 ]
 ASSUMPTIONS = [
-    "documents are *.lua files of the workspace not excluded by an ignore rule (IsNeedHandle/IsHandleAsLua true); "
-    "document 3 of the harness is a *.txt file to exercise the IsHandleAsLua branch of didOpen",
+    "documents are files whose decoded path ends in .lua, not excluded by an ignore rule, no file association configured "
+    "(IsNeedHandle true, IsHandleAsLua = suffix test); other names exercise the IsHandleAsLua branch of didOpen",
+    "each resource is named by ONE URI: the theorem's guard is that the decode is injective on the URIs of the history, "
+    "proved for canonical URIs (one percent-encoder: a fixed set of bytes stands for itself, all others are %XX in upper-case "
+    "hex, no backslash in the path); histories whose URI table names one resource twice (a%2Bb / a%2bb / a+b, a backslash "
+    "against a slash) are compared implementation vs. model only",
     "the quantifier of the theorems is 'conformant histories' (Spec/LspText.v conformant): notifications only for open "
-    "documents, ranges that are ranges of the client's text, didSave carrying the text (the server asks for includeText), "
+    "documents, ranges that are ranges of the client's text, didSave with the client's text or without text, "
     "Range == nil only with RangeLength == 0; other input is compared implementation vs. model only",
     "the server is driven sequentially (the handlers hold requestMutex); interleavings are C10's business",
 ]
@@ -411,14 +619,26 @@ def main(tier, seed):
                 extra["history_generator_nonconformant"] = nonconf
                 if nonconf:
                     log("  note: %d generated histories were judged non-conformant by the extracted spec (generator quality only)" % nonconf)
-                extra["history_notes_total"] = sum(len(row[0].split(" ")) for row in rows)
-                feats = {"crlf": lambda c: ".d.a" in c or ":d.a" in c, "two_documents": lambda c: len({t[1] for t in c.split(" ") if t[0] == "O"}) > 1,
+                notes_of = lambda c: [t for t in c.split(" ") if not t.startswith("U:")]
+                extra["history_notes_total"] = sum(len(notes_of(row[0])) for row in rows)
+                feats = {"crlf": lambda c: ".d.a" in c or ":d.a" in c, "two_documents": lambda c: len({t[1] for t in notes_of(c) if t[0] == "O"}) > 1,
                          "multi_change_batch": lambda c: ";" in c, "full_replace": lambda c: "F.0:" in c,
-                         "save": lambda c: " S" in c, "close_then_more": lambda c: " X" in c[:-3],
-                         "empty_document_opened": lambda c: any(t[2:] == ":-" for t in c.split(" ") if t[0] == "O"),
-                         "non_ascii": lambda c: any(len(x) > 2 for t in c.split(" ") for x in t[3:].replace(";", ".").replace(":", ".").split("."))}
+                         "save": lambda c: any(t[0] == "S" and not t.endswith(":nil") for t in notes_of(c)),
+                         "save_without_text": lambda c: any(t[0] == "S" and t.endswith(":nil") for t in notes_of(c)),
+                         "close_then_more": lambda c: " X" in c[:-3],
+                         "empty_document_opened": lambda c: any(t[2:] == ":-" for t in notes_of(c) if t[0] == "O"),
+                         "non_ascii": lambda c: any(len(x) > 2 for t in notes_of(c) for x in t[3:].replace(";", ".").replace(":", ".").split(".")),
+                         "uri_table": lambda c: c.startswith("U:"),
+                         "uri_names_plus_vs_space": plus_pair,
+                         "uri_percent_encoded": lambda c: c.startswith("U:") and "25" in c.split(" ")[0]}
                 extra["history_input_distribution"] = {k: sum(1 for row in rows if f(row[0])) for k, f in feats.items()}
-                extra["history_known_class_cases"] = {k: sum(1 for row in rows if k in row[4].split(",")) for k in ("astral", "lone_cr", "stale")}
+                extra["history_known_class_cases"] = {k: sum(1 for row in rows if k in row[4].split(",")) for k in ("astral", "lone_cr", "stale", "uri_plus", "save_nil")}
     # report first a failing input from the proved region (no known class), the shortest one
-    r.violations.sort(key=lambda v: (v.get("class", "-") != "-", len(v.get("case", ""))))
+    # histories before single URIs; and right behind the first one the shortest history that fails without a didSave
+    # without text (so that a replay shows both a wrong key and a handler that dies, when both are there)
+    r.violations.sort(key=lambda v: (not v.get("leg", "").startswith("c02.history"), v.get("class", "-") != "-", len(v.get("case", ""))))
+    for i, v in enumerate(r.violations):
+        if i > 1 and v.get("leg", "").startswith("c02.history") and ":nil" not in v.get("case", ""):
+            r.violations.insert(1, r.violations.pop(i))
+            break
     return r.finish(LEGS, extra_cov=extra, trusted=TRUSTED, assumptions=ASSUMPTIONS)
